@@ -180,6 +180,22 @@ class Repo:
                     raise AnalysisError(f"cannot parse {rel}: {exc}") from exc
                 _attach_parents(tree)
                 self.modules[mod] = Module(mod, path, rel, source, tree, is_pkg)
+        # virtual modules: overrides for files that do not exist on disk
+        for rel, source in self.overrides.items():
+            if not rel.startswith("src/") or not rel.endswith(".py"):
+                continue
+            path = os.path.join(self.root, rel)
+            mod = rel[len("src/"):-3].replace("/", ".")
+            if mod.endswith(".__init__"):
+                mod = mod[: -len(".__init__")]
+            if mod in self.modules:
+                continue
+            try:
+                tree = ast.parse(source, filename=rel)
+            except SyntaxError as exc:
+                raise AnalysisError(f"cannot parse {rel}: {exc}") from exc
+            _attach_parents(tree)
+            self.modules[mod] = Module(mod, path, rel, source, tree, False)
 
     # ----------------------------------------------------------------- index
     def _index(self) -> None:
